@@ -84,6 +84,8 @@ def phase_mc(prop, tier, specdir, scratch):
     total_states = total_trans = 0
     runs = []
     for i, mc in enumerate(prop.get("mc", [])):
+        if tier not in mc.get("tiers", ["quick", "thorough"]):
+            continue
         cfg = mc["cfg"][tier] if isinstance(mc["cfg"], dict) else mc["cfg"]
         to = mc.get("timeout", {}).get(tier, 900) if isinstance(mc.get("timeout"), dict) else mc.get("timeout", 900)
         r = run_tlc(specdir, mc["module"], cfg, mc.get("workers", NCPU), scratch, f"mc{i}", to,
